@@ -319,14 +319,16 @@ def search_default(tier, rng):
                 case = J('poly', 0, 0, 3, *[v for p in pts for v in p], 'S', 0, 0, 0, 0)
         elif fam in ('tri', 'poly', 'line') and rng.random() < 0.45:
             # vertices in the corners / on the edges of the +-1024 square: the largest products and determinants
-            case = zoo_case(rng, fam, c=xb, e=e, maxw=0, absolute=True)
+            case = zoo_case(rng, fam, c=xb, e=e, maxw=0, absolute=True, dotted=True)
             if fam == 'poly':
                 # zoo_case halves polyline coordinates; rebuild with full-range vertices
                 nv = rng.choice([2, 3, 3, 4, 5])
                 case = J('poly', 0, 0, nv, *[xb(rng) for _ in range(2 * nv)], 'S', 0, 0, 0, 0)
         else:
-            case = zoo_case(rng, fam, c=cb, e=e, maxw=0, absolute=True)
+            case = zoo_case(rng, fam, c=cb, e=e, maxw=0, absolute=True, dotted=True)
         if ' S ' in case:
             head, _ = case.rsplit(' S ', 1)
             case = head + ' ' + J('S', rng.randrange(2), rng.randrange(2), rng.choice(W), rng.randrange(3))
+            if case.startswith('rect ') and rng.random() < 0.35:
+                case += ' 1'   # dotted stroke style
         yield 'p_total ' + case
